@@ -64,7 +64,7 @@ func genOutOps(rt *rapid.T, maxOps, maxLen int, pings bool) []outOp {
 	ops := make([]outOp, n)
 	for i := range ops {
 		o := &ops[i]
-		k := rapid.IntRange(0, 14).Draw(rt, "opKind")
+		k := rapid.IntRange(0, 15).Draw(rt, "opKind")
 		switch {
 		case k < 4:
 			o.Kind = "write"
@@ -88,6 +88,11 @@ func genOutOps(rt *rapid.T, maxOps, maxLen int, pings bool) []outOp {
 		case k == 14:
 			o.Kind = "reclose"
 			continue
+		case k == 15:
+			o.Kind = "wlock"
+			if !pings {
+				o.Kind = "writer"
+			}
 		default:
 			// a Write held up after StallAt bytes: the caller's buffer is looked at while
 			// the call is blocked; the last op of a program may then lose its transport
@@ -156,6 +161,9 @@ func genWPing(rt *rapid.T, o *outOp, maxLen int) {
 	o.Chunks = []int{first}
 }
 
+// wlockExtra is the message the queued writer C sends in a "wlock" op.
+func wlockExtra(o outOp) []byte { return expand(ckText, o.Seed+1, 40+int(o.Seed%300)) }
+
 // lastWriters: the most recent message writer handle per connection, for the "reclose" op.
 var lastWriters sync.Map
 
@@ -170,6 +178,41 @@ func doOutOp(ctx context.Context, conn *websocket.Conn, o outOp, payload []byte)
 		return conn.Ping(ctx)
 	case "write":
 		return conn.Write(ctx, typ, payload)
+	case "wlock":
+		// A streams this message; while it is open B's Write gives up waiting for its turn
+		// (50 ms deadline) and C's Write (no deadline) queues. C must wait for A to finish:
+		// the wire carries A's message, then C's.
+		w, err := conn.Writer(ctx, typ)
+		if err != nil {
+			return err
+		}
+		lastWriters.Store(conn, w)
+		half := len(payload) / 2
+		if _, err := w.Write(payload[:half]); err != nil {
+			return err
+		}
+		bctx, bcancel := context.WithTimeout(ctx, 50*time.Millisecond)
+		defer bcancel()
+		if berr := conn.Write(bctx, websocket.MessageBinary, []byte("B gives up")); berr == nil {
+			return fmt.Errorf("a Write returned nil while another goroutine's message was open")
+		}
+		cdone := make(chan error, 1)
+		go func() { cdone <- conn.Write(ctx, websocket.MessageBinary, wlockExtra(o)) }()
+		// (virtual time only moves once every goroutine of the bubble is blocked; synctest.Wait
+		// itself must not be used here: the other direction's writer may be doing the same)
+		time.Sleep(time.Millisecond)
+		select {
+		case cerr := <-cdone:
+			return fmt.Errorf("a Write got its turn inside another goroutine's open message after a third Write had given up waiting (err=%v)", cerr)
+		default:
+		}
+		if _, err := w.Write(payload[half:]); err != nil {
+			return err
+		}
+		if err := w.Close(); err != nil {
+			return err
+		}
+		return <-cdone
 	case "reclose":
 		// Close once more on the writer of an earlier, finished message (a deferred Close
 		// behind an explicit one): at most an error, and nothing on the wire
@@ -225,13 +268,24 @@ func doOutOp(ctx context.Context, conn *websocket.Conn, o outOp, payload []byte)
 // repeatedKeys: "keys that differ between frames". One equal neighbouring pair
 // can happen by chance (2^-32 per pair); two in one case cannot in practice.
 func repeatedKeys(keys [][4]byte) bool {
-	pairs := 0
-	for i := 1; i < len(keys); i++ {
-		if keys[i] == keys[i-1] {
-			pairs++
+	// any two frames of the program, not only neighbours (a key schedule that repeats with a period)
+	seen := map[[4]byte]bool{}
+	repeats := 0
+	for _, k := range keys {
+		if seen[k] {
+			repeats++
 		}
+		seen[k] = true
 	}
-	return pairs >= 2
+	// how many chance repeats are out of the question for this many frames: the expected
+	// number of colliding pairs is n^2 / 2^33; k repeats by chance have probability < lambda^k / k!
+	lambda := float64(len(keys)) * float64(len(keys)) / float64(1<<33)
+	k, p := 2, lambda*lambda/2
+	for p > 1e-12 {
+		k++
+		p = p * lambda / float64(k)
+	}
+	return repeats >= k
 }
 
 // doBurst: a Write is held up by a zero window while it holds the frame lock,
@@ -403,6 +457,9 @@ func runC02(t fataler, mode c03Mode, threshold int, ops []outOp, closeCode int, 
 					typ = ref.OpText
 				}
 				want = append(want, sent{typ, keep})
+				if o.Kind == "wlock" {
+					want = append(want, sent{ref.OpBinary, wlockExtra(o)})
+				}
 			}
 		}
 		if doClose {
@@ -463,7 +520,7 @@ func runC02(t fataler, mode c03Mode, threshold int, ops []outOp, closeCode int, 
 		return fmt.Sprintf("%d Ping frames on the wire, %d Ping calls", len(rep.Pings), nPings), res
 	}
 	if mode.Client && repeatedKeys(rep.Keys) {
-		return "consecutive frames carry the same masking key (twice in this program)", res
+		return "frames of this connection carry a masking key that an earlier frame already used (twice or more in this program)", res
 	}
 	if len(rep.Closes) == 0 {
 		if !doClose || ref.Sendable(closeCode) && len(closeReason) <= 123 || closeCode == 1005 {
@@ -499,7 +556,18 @@ func TestC02(t *testing.T) {
 		code, reason := 1000, ""
 		if doClose {
 			code = rapid.OneOf(rapid.SampledFrom([]int{1000, 1001, 1003, 1008, 1011, 3000, 4999, 1005}), rapid.IntRange(0, 5100)).Draw(rt, "closeCode")
-			reason = c06Reason(rapid.SampledFrom([]int{0, 1, 50, 123, 124, 125}).Draw(rt, "reasonLen"), code)
+			rl := rapid.SampledFrom([]int{0, 1, 50, 122, 123, 124, 125}).Draw(rt, "reasonLen")
+			switch rapid.IntRange(0, 2).Draw(rt, "reasonKind") {
+			case 0:
+				reason = c06Reason(rl, code)
+			case 1:
+				reason = c06ReasonMB(rl, code)
+			default:
+				// not valid UTF-8: every other byte is 0xff. Whatever the library does about it,
+				// the Close frame stays a control frame of at most 125 bytes
+				b := bytes.Repeat([]byte{'a', 0xff}, rl/2+1)
+				reason = string(b[:rl])
+			}
 		}
 		var msg string
 		var res c02Result
